@@ -84,7 +84,10 @@ pub fn check_library(lib: &[(String, String)], ext: &str, allow_known: bool) -> 
             // the emitted url of a note link carries exactly the configured extension
             if !md::is_external(&a.dest) && a.kind == "regular" {
                 let has = a.dest.ends_with(".md");
-                if has != (ext == ".md") || a.dest.ends_with(".md.md") {
+                // links in table cells are written by a second writer which leaves the url as it was read:
+                // the statement allows that (the destination is unchanged); stacking is excluded everywhere
+                let in_table = a.holder == "cell";
+                if (has != (ext == ".md") && !in_table) || a.dest.ends_with(".md.md") {
                     return Some((format!("note {:?}: link written as {:?} with refs_extension {:?}", key, a.dest, ext), false));
                 }
             }
@@ -111,8 +114,10 @@ pub fn check_library(lib: &[(String, String)], ext: &str, allow_known: bool) -> 
 /// file name in several directories), every note linking to most of the others as block reference:
 /// key resolution must compare path components, not strings
 fn similar_names_library(r: &mut Rng) -> Vec<(String, String)> {
-    let keys = ["d/x", "d2/x", "d", "dx/y", "d/d/x", "x", "d/d2"];
-    let n = r.range(3, keys.len());
+    let keys = ["d/x", "d2/x", "d", "dx/y", "d/d/x", "x", "d/d2", "v1.2", "v1", "d/2024.01.15", "d/2024.01", "d.e/x"];
+    // at most 6 notes: the number of outline paths (computed at start-up) grows with the number of reference
+    // chains, factorially when every note refers to every other one (finding D35)
+    let n = r.range(3, 6);
     let mut chosen: Vec<&str> = keys.to_vec();
     for i in (1..chosen.len()).rev() {
         chosen.swap(i, r.below(i + 1));
@@ -169,7 +174,7 @@ pub fn run(ctx: &Ctx, model: &mut Model, rep: &mut Report) {
     for i in 0..n {
         let mut r = Rng::for_case(ctx.seed ^ 0xC06, i as u64);
         let wild = i % 8 == 7;
-        let lib = if i % 10 == 3 { similar_names_library(&mut r) } else { c05::gen_library(&mut r, wild) };
+        let lib = if i % 7 == 3 { similar_names_library(&mut r) } else { c05::gen_library(&mut r, wild) };
         let ext = if i % 2 == 0 { "" } else { ".md" };
         let text = format!("{:?}{}", lib, ext);
         rep.case(&text, text.contains("]("));
